@@ -1,13 +1,19 @@
 """C13 — interpolation honours the data and the requested grid."""
 from tools.harness.core import Property
+from tools.props.weaver_units import WeaverUnit
 from tools.props.proc_units import InterpUnit
+
+
+class WC13(WeaverUnit):
+    name = "weaver_c13"
 
 
 class C13(Property):
     id = "C13"
+    gen_targets = ["Funfit"]
 
     def units(self, tier):
-        return [InterpUnit()]
+        return [InterpUnit(), WC13(("C13",), ops=['interpolate','interpolate','shift_x','scale_y','append','repeat'], max_len=6, queries=False)]
 
 
 PROPERTY = C13()
